@@ -481,8 +481,11 @@ def prove(hyps, goal, timeout_ms=10000, seed=0, use_cvc5=True, both=False, quick
         out['model'] = s2.model()
         out['exact'] = True
     elif finite_scope is not None:
+        # a counter-model of the hypotheses instantiated over the ground terms only: not a refutation (an instance outside
+        # that scope may rule it out) - the obligation is undecided, the candidate model is kept for the report
         finite_scope['time_s'] = out['time_s']
-        finite_scope['note'] = 'finite-scope counter-model (quantified hypotheses instantiated over the ground terms of the query); cvc5 and z3/MBQI did not decide'
+        finite_scope['status'] = 'undecided'
+        finite_scope['reason'] = 'finite-scope counter-model only (quantified hypotheses instantiated over the ground terms of the query); cvc5 and z3/MBQI did not decide'
         return finite_scope
     else:
         out['status'] = 'undecided'
